@@ -566,8 +566,9 @@ def ex_roundtrip(case):
             nonstr |= not isinstance(v, str)
             a.add(v) if op != "rm" else a.remove(v)
         b = ORSet.from_dict(a.to_dict())
+        # class: did the history ever hold a non-string element (also removed ones: to_dict still keys them by str())
+        only_str = not nonstr
         if b.value != a.value or not (b == a):
-            only_str = all(isinstance(e, str) for e in a.value)
             r.add(f"{P}/roundtrip/orset-changes-state/" + ("string-elements" if only_str else "non-string-elements"),
                   f"value {sorted(map(repr, a.value))} -> {sorted(map(repr, b.value))} after from_dict(to_dict())")
         c = ORSet("c")
@@ -575,7 +576,6 @@ def ex_roundtrip(case):
         d = ORSet("d")
         d.merge(a)
         if c.value != d.value:
-            only_str = all(isinstance(e, str) for e in a.value)
             r.add(f"{P}/roundtrip/orset-changes-state/" + ("string-elements" if only_str else "non-string-elements"),
                   f"merging the round-tripped image gives {sorted(map(repr, c.value))}, merging the original {sorted(map(repr, d.value))}")
     r.nontrivial = nonstr and len(case.get("ops") or []) >= 2
